@@ -29,9 +29,9 @@ fn parse(line: &str) -> Option<NetworkFilter> {
     }
 }
 
+/// the crate's per-rule matcher, cross-checked against the reading of the rule text (implrun::net)
 fn rule_matches(f: &NetworkFilter, req: &Request) -> bool {
-    let mut rm = RegexManager::default();
-    f.matches(req, &mut rm)
+    implrun::net::rule_matches(f, req)
 }
 
 #[derive(Debug, Clone, PartialEq)]
@@ -288,6 +288,7 @@ fn main() {
         for url in urls {
             let ty = if url.contains("q=") { "xhr" } else { "script" };
             let Ok(req) = Request::new(&url, "https://a.com/", ty) else { continue };
+            register_request(&req, &url, "https://a.com/", ty);
             let got_tokens = req.get_tokens().clone();
             let low = adblock::request::verif::url_lower_cased(&req).to_string();
             cs.stat("long_url");
@@ -432,6 +433,7 @@ fn main() {
                 }
             }
             let Ok(req) = Request::new(&url, &src, ty) else { cs.stat("request_error"); continue };
+            register_request(&req, &url, &src, ty);
             let matching: Vec<u64> = rules.iter().filter(|f| rule_matches(f, &req)).map(|f| f.id).collect();
             // a third of the queries go through the subset entry point (another engine matched before /
             // exceptions forced)
